@@ -47,3 +47,21 @@ Proof.
 Qed.
 
 Print Assumptions command_line_results.
+
+(* the Solver object built from its command line, solved twice: same status, same logged lines *)
+Theorem command_line_resolve : forall c A trailer t0 s lim1 e1 s1 lim2 e2 s2,
+  acceptable_ns (c_ns c) (c_twopl c) (c_stab c) = true ->
+  wf_ast (c_na c) (c_twopl c) A = true ->
+  c_bf c = false ->
+  milp_ok (denote (c_na c) (c_twopl c) A) (e_solve e1) -> milp_ok (denote (c_na c) (c_twopl c) A) (e_solve e2) ->
+  solver_new c (Some (render (c_na c) A trailer)) t0 = SReady s ->
+  do_solve s lim1 e1 = Ok s1 -> do_solve s1 lim2 e2 = Ok s2 ->
+  s_status s2 = s_status s1 /\ s_info s2 = s_info s1.
+Proof.
+  intros c A trailer t0 s lim1 e1 s1 lim2 e2 s2 Hacc Hwa Hbf Hok1 Hok2 Hnew H1 H2.
+  rewrite (accepted_starts_session c A trailer t0 Hacc Hwa) in Hnew. injection Hnew as <-.
+  exact (resolve_reproducible (init_session (denote (c_na c) (c_twopl c) A) (cli_opts c) (c_bf c) (c_twopl c) t0)
+                              lim1 e1 s1 lim2 e2 s2 Hbf Hok1 Hok2 H1 H2).
+Qed.
+
+Print Assumptions command_line_resolve.
